@@ -97,9 +97,20 @@ package core
 //@ assumed
 //@ pure
 //@ package github.com/nspcc-dev/neo-go/pkg/core/block
+// (C17: a reported size equals the length of the encoding) the size of a block without its
+// transactions: hashable header part, the witness count byte, the witness with both length
+// prefixes, the transaction count.
+//@ prop C07,C17
+//@ import io github.com/nspcc-dev/neo-go/pkg/io
+//@ pkg-invariant expectedHeaderSizeWithEmptyWitness == 112
+//@ spec witSize(w *transaction.Witness) int = io.varsize(len(w.InvocationScript)) + len(w.InvocationScript) + io.varsize(len(w.VerificationScript)) + len(w.VerificationScript)
 //@ func (*Block).GetExpectedBlockSizeWithoutTransactions
-//@ assumed
 //@ pure
+//@ requires b != nil && 0 <= txCount && txCount <= 0xffffffff && len(b.Script.InvocationScript) <= 0xffffffff && len(b.Script.VerificationScript) <= 0xffffffff
+//@ call GetVarSize ensures[witness] is(arg0, *transaction.Witness) ==> result == witSize(arg0.(*transaction.Witness))
+//@ call GetVarSize ensures[count] is(arg0, int) ==> result == io.varsize(arg0.(int))
+//@ ensures[size] result == 110 + witSize(&b.Script) + io.varsize(txCount) + ite(b.StateRootEnabled, 32, 0)
+//@ prop C07
 //@ package github.com/nspcc-dev/neo-go/pkg/core/native
 //@ iface INEO.GetNextBlockValidatorsInternal
 //@ assumed
